@@ -107,7 +107,7 @@ _CMP = {
 }
 _BIN = {
     ast.Add: lambda a, b: a + b, ast.Sub: lambda a, b: a - b, ast.Mult: lambda a, b: a * b, ast.FloorDiv: lambda a, b: a // b,
-    ast.Mod: lambda a, b: a % b, ast.LShift: lambda a, b: a << b, ast.RShift: lambda a, b: a >> b, ast.BitAnd: lambda a, b: a & b,
+    ast.Div: lambda a, b: a / b, ast.Mod: lambda a, b: a % b, ast.LShift: lambda a, b: a << b, ast.RShift: lambda a, b: a >> b, ast.BitAnd: lambda a, b: a & b,
     ast.BitOr: lambda a, b: a | b, ast.BitXor: lambda a, b: a ^ b, ast.Pow: lambda a, b: a ** b if (not isinstance(b, int) or abs(b) < 4096) else (_ for _ in ()).throw(OverflowError()),
 }
 _PURE_METHODS = {
@@ -353,12 +353,14 @@ class Evaluator:
                 o[lo:hi] = v
                 return
             k = self._expr(t.slice, env, mod, cls)
-            if not isinstance(o, (list, dict)):
+            if not isinstance(o, (list, dict, bytearray)):
                 raise Undecided("item store on %s" % type(o).__name__)
             try:
                 o[k] = v
             except (IndexError, KeyError, TypeError):
                 raise Raised("IndexError", t)
+            except ValueError:
+                raise Raised("ValueError", t)
         else:
             raise Undecided("store target %s" % type(t).__name__)
 
